@@ -58,8 +58,11 @@ SampleLines == {[spec |-> ToSpec(x), dss |-> <<x.ds, x.ds \o <<"conf">>, <<"conf
 Lines == IF Fam = "one" THEN OneLines ELSE SampleLines
 Expand(ln) == [spec |-> ln.spec, argss |-> [k \in 1..Len(ln.dss) |-> MkArgs(ln.spec, ln.dss[k])]]
 LSeq == SetToSeq(Lines)
-ASSUME ndJsonSerialize(IOEnv.VOUT, [i \in 1..Len(LSeq) |-> Expand(LSeq[i])])
-ASSUME PrintT(<<"GEN", Len(LSeq)>>)
+ShardI == EnvInt("VSHARDI", 0)
+ShardN == EnvInt("VSHARDN", 1)
+MineF == SetToSeq({i \in 1..Len(LSeq) : i % ShardN = ShardI})
+ASSUME ndJsonSerialize(IOEnv.VOUT, [j \in 1..Len(MineF) |-> Expand(LSeq[MineF[j]])])
+ASSUME PrintT(<<"GEN", Len(MineF)>>)
 VARIABLE x
 Init == x = 0
 Next == UNCHANGED x
